@@ -139,6 +139,11 @@ def check_worker(col: Collector, rule: str, worker_name: str, ret_mode: str, out
     cfg = w.cfg
     q = f"sorting.{worker_name}"
 
+    # the shared containers are used as given (a `visited = visited or set()` would un-share an empty set)
+    reb = [d for nid in cfg.nodes for d in w.rd.defs.get(nid, []) if d.name in (out_p, vis_p, graph_p) and d.kind in ("assign", "aug", "for", "del")]
+    col.add(rule, f"{q}#shared-containers-not-rebound", not reb and not A.param_defaults(w.fn), w.loc(reb[0].nid) if reb else w.loc(w.fn),
+            "the worker uses the graph, output and visited containers of its caller as given (they are shared between start vertices)",
+            f"rebinding: {reb}; defaults: {list(A.param_defaults(w.fn))}")
     # emissions
     emits = []
     for nid in cfg.find(lambda x: isinstance(x, ast.Call) and isinstance(x.func, ast.Attribute)
